@@ -189,15 +189,27 @@ Qed.
 
 (* ------------------------------------------------------------------ chained HotStuff *)
 
+Lemma lock_target_ok_iff : forall f qb, lock_target_ok f qb = true <-> lock_target_available f qb.
+Proof.
+  intros f qb. unfold lock_target_ok, lock_target_available.
+  destruct (N.eqb_spec (qc_hash (b_qc qb)) zero_hash) as [E | E].
+  - split; [intros _ H; contradiction | reflexivity].
+  - destruct (get f (qc_hash (b_qc qb))) as [t |].
+    + split; [intros _ _; eauto | reflexivity].
+    + split; [discriminate | intros H; destruct (H E) as [t Ht]; discriminate].
+Qed.
+
 Lemma chained_vote_sound : forall f lock v p,
   chained_vote f lock v p = true -> chained_vote_spec f lock p.
 Proof.
   unfold chained_vote, chained_vote_spec. intros f lock v p H.
   destruct (get f (qc_hash (b_qc (p_block p)))) as [qb |] eqn:G.
-  - destruct (N.ltb_spec (b_view lock) (b_view qb)) as [L | L].
+  - destruct (lock_target_ok f qb) eqn:LT; simpl in H; [| discriminate].
+    split; [intros qb' E; inversion E; subst; apply lock_target_ok_iff; exact LT |].
+    destruct (N.ltb_spec (b_view lock) (b_view qb)) as [L | L].
     + left. eauto.
     + right. apply extends_sound. exact H.
-  - right. apply extends_sound. exact H.
+  - split; [intros qb' E; discriminate |]. right. apply extends_sound. exact H.
 Qed.
 
 Lemma chained_vote_correct : forall f lock v p,
@@ -205,11 +217,15 @@ Lemma chained_vote_correct : forall f lock v p,
   (chained_vote f lock v p = true <-> chained_vote_spec f lock p).
 Proof.
   intros f lock v p CA MONO. split; [apply chained_vote_sound |].
-  unfold chained_vote, chained_vote_spec. intros [[qb [G L]] | E].
-  - rewrite G. apply N.ltb_lt in L. rewrite L. reflexivity.
-  - apply (extends_complete f _ lock CA MONO) in E.
-    destruct (get f (qc_hash (b_qc (p_block p)))) as [qb |]; [| exact E].
-    destruct (N.ltb (b_view lock) (b_view qb)); [reflexivity | exact E].
+  unfold chained_vote, chained_vote_spec. intros [LT D].
+  destruct (get f (qc_hash (b_qc (p_block p)))) as [qb |] eqn:G.
+  - assert (LT' : lock_target_ok f qb = true) by (apply lock_target_ok_iff; apply LT; reflexivity).
+    rewrite LT'. simpl. destruct D as [[qb' [G' L]] | E].
+    + inversion G'; subst. apply N.ltb_lt in L. rewrite L. reflexivity.
+    + apply (extends_complete f _ lock CA MONO) in E.
+      destruct (N.ltb (b_view lock) (b_view qb)); [reflexivity | exact E].
+  - destruct D as [[qb' [G' _]] | E]; [discriminate |].
+    apply (extends_complete f _ lock CA MONO). exact E.
 Qed.
 
 Lemma chained_commit_correct : forall f lock blk lock' c,
@@ -338,9 +354,13 @@ Proof.
   destruct (N.ltb_spec (b_view (p_block p)) v) as [L | L].
   - split; [discriminate | intros [H _]; lia].
   - destruct (get f (qc_hash (b_qc (p_block p)))) as [par |] eqn:G.
-    + destruct (N.ltb_spec (b_view par) (b_view lock)) as [L2 | L2]; simpl.
-      * split; [discriminate |]. intros [_ [par' [E Hle]]]. inversion E; subst. lia.
-      * split; [| reflexivity]. intros _. split; [exact L | eauto].
+    + destruct (lock_target_ok f par) eqn:LT; simpl.
+      * apply lock_target_ok_iff in LT.
+        destruct (N.ltb_spec (b_view par) (b_view lock)) as [L2 | L2]; simpl.
+        -- split; [discriminate |]. intros [_ [par' [E [_ Hle]]]]. inversion E; subst. lia.
+        -- split; [| reflexivity]. intros _. split; [exact L | eauto].
+      * split; [discriminate |]. intros [_ [par' [E [LT' _]]]]. inversion E; subst.
+        apply lock_target_ok_iff in LT'. congruence.
     + split; [discriminate |]. intros [_ [par' [E _]]]. discriminate.
 Qed.
 
@@ -660,6 +680,285 @@ Theorem extends_is_ancestry : forall f blk t,
   (content_addressed (t :: blk :: f) -> parent_views_increase f blk ->
    (extends f blk t = true <-> extends_spec f blk (b_hash t))).
 Proof. intros f blk t. split; [exact (extends_sound f blk t) | exact (extends_iff f blk t)]. Qed.
+
+(* ------------------------------------------------------------------ fetching *)
+(* The Go rules call Blockchain.Get, which fetches and stores missing blocks.  The threaded
+   rules ([*_io], RulesModel.v) decide exactly what the pure rules decide on the AVAILABLE
+   blocks [f ++ net]; the store only grows, by blocks taken from [net], one per hash. *)
+
+Lemma get_app : forall a b h,
+  get (a ++ b) h = match get a h with Some x => Some x | None => get b h end.
+Proof.
+  unfold get. induction a as [| x a IH]; intros b h; simpl; [reflexivity |].
+  destruct (N.eqb (b_hash x) h); [reflexivity | apply IH].
+Qed.
+
+Definition grows (net f f' : store) : Prop :=
+  (forall h, get (f' ++ net) h = get (f ++ net) h) /\
+  (exists extra, f' = f ++ extra /\ incl extra net) /\
+  (NoDup (map b_hash f) -> NoDup (map b_hash f')).
+
+Lemma grows_refl : forall net f, grows net f f.
+Proof.
+  intros. split; [reflexivity |]. split; [| auto].
+  exists []. rewrite app_nil_r. split; [reflexivity | intros x []].
+Qed.
+
+Lemma grows_trans : forall net a b c, grows net a b -> grows net b c -> grows net a c.
+Proof.
+  intros net a b c [E1 [[x1 [-> I1]] N1]] [E2 [[x2 [-> I2]] N2]]. split; [| split].
+  - intros h. rewrite E2. apply E1.
+  - exists (x1 ++ x2). rewrite app_assoc. split; [reflexivity | apply incl_app; assumption].
+  - auto.
+Qed.
+
+Lemma grows_in : forall net f f' b, grows net f f' -> In b f -> In b f'.
+Proof. intros net f f' b [_ [[x [-> _]] _]] H. apply in_or_app. auto. Qed.
+
+Lemma grows_get : forall net f f' h, grows net f f' -> get (f' ++ net) h = get (f ++ net) h.
+Proof. intros net f f' h [E _]. apply E. Qed.
+
+Lemma grows_nodup : forall net f f', grows net f f' -> NoDup (map b_hash f) -> NoDup (map b_hash f').
+Proof. intros net f f' [_ [_ N]]. exact N. Qed.
+
+Lemma fetch_spec : forall net f h f' r,
+  fetch net f h = (f', r) ->
+  r = get (f ++ net) h /\ grows net f f' /\ (forall b, r = Some b -> In b f').
+Proof.
+  unfold fetch. intros net f h f' r H. rewrite get_app.
+  destruct (get f h) as [b |] eqn:G.
+  - inversion H; subst. split; [reflexivity |]. split; [apply grows_refl |].
+    intros b' E. inversion E; subst. apply get_some in G. tauto.
+  - destruct (get net h) as [b |] eqn:Gn; inversion H; subst.
+    + destruct (get_some _ _ _ Gn) as [Hin Hb].
+      split; [reflexivity |]. split.
+      * split.
+        -- intros h'. rewrite <- app_assoc, !get_app. destruct (get f h') as [x |] eqn:G'; [reflexivity |].
+           unfold get at 1. simpl. fold (get net h').
+           destruct (N.eqb_spec (b_hash b) h') as [E | E]; [| reflexivity].
+           rewrite <- E, Hb. symmetry. exact Gn.
+        -- split.
+           ++ exists [b]. split; [reflexivity |]. intros x [<- | []]. exact Hin.
+           ++ intros ND. rewrite map_app. simpl. apply get_none_notin in G. rewrite <- Hb in G.
+              assert (NoDup (b_hash b :: map b_hash f)) by (constructor; assumption).
+              eapply Permutation_NoDup; [| exact H0]. apply Permutation_cons_append.
+      * intros b' E. inversion E; subst. apply in_or_app. right. left. reflexivity.
+    + split; [reflexivity |]. split; [apply grows_refl | discriminate].
+Qed.
+
+Lemma qc_ref_ext : forall s1 s2 q, (forall h, get s1 h = get s2 h) -> qc_ref s1 q = qc_ref s2 q.
+Proof. intros s1 s2 q E. unfold qc_ref. rewrite E. reflexivity. Qed.
+
+Lemma lock_target_ok_ext : forall s1 s2 qb, (forall h, get s1 h = get s2 h) ->
+  lock_target_ok s1 qb = lock_target_ok s2 qb.
+Proof. intros s1 s2 qb E. unfold lock_target_ok. rewrite E. reflexivity. Qed.
+
+Lemma extends_fuel_ext : forall fuel s1 s2 cur t, (forall h, get s1 h = get s2 h) ->
+  extends_fuel fuel s1 cur t = extends_fuel fuel s2 cur t.
+Proof.
+  induction fuel as [| k IH]; intros s1 s2 cur t E; simpl; [reflexivity |].
+  destruct (N.ltb (b_view t) (b_view cur)); [| reflexivity].
+  rewrite E. destruct (get s2 (b_parent cur)); [apply IH; exact E | reflexivity].
+Qed.
+
+Lemma qc_ref_io_spec : forall net f q f' r,
+  qc_ref_io net f q = (f', r) ->
+  r = qc_ref (f ++ net) q /\ grows net f f' /\ (forall b, r = Some b -> In b f').
+Proof.
+  unfold qc_ref_io, qc_ref. intros net f q f' r H.
+  destruct (N.eqb (qc_hash q) zero_hash).
+  - inversion H; subst. split; [reflexivity |]. split; [apply grows_refl | discriminate].
+  - apply fetch_spec. exact H.
+Qed.
+
+Lemma lock_target_io_spec : forall net f qb f' r,
+  lock_target_io net f qb = (f', r) -> r = lock_target_ok (f ++ net) qb /\ grows net f f'.
+Proof.
+  unfold lock_target_io, lock_target_ok. intros net f qb f' r H.
+  destruct (N.eqb (qc_hash (b_qc qb)) zero_hash).
+  - inversion H; subst. split; [reflexivity | apply grows_refl].
+  - destruct (fetch net f (qc_hash (b_qc qb))) as [f1 r1] eqn:F.
+    apply fetch_spec in F. destruct F as [-> [G _]].
+    destruct (get (f ++ net) (qc_hash (b_qc qb))); inversion H; subst; auto.
+Qed.
+
+Lemma extends_io_spec : forall fuel net f cur t f' r,
+  extends_io fuel net f cur t = (f', r) ->
+  r = extends_fuel fuel (f ++ net) cur t /\ grows net f f'.
+Proof.
+  induction fuel as [| k IH]; intros net f cur t f' r H; simpl in *.
+  - destruct (N.ltb (b_view t) (b_view cur)); inversion H; subst; split; auto using grows_refl.
+  - destruct (N.ltb (b_view t) (b_view cur)).
+    + destruct (fetch net f (b_parent cur)) as [f1 r1] eqn:F.
+      apply fetch_spec in F. destruct F as [-> [G _]].
+      destruct (get (f ++ net) (b_parent cur)) as [p |].
+      * apply IH in H. destruct H as [-> G2]. split; [| eapply grows_trans; eauto].
+        apply extends_fuel_ext. intros h. apply grows_get. exact G.
+      * inversion H; subst. auto.
+    + inversion H; subst. split; auto using grows_refl.
+Qed.
+
+Ltac ext_get G := let h := fresh "h" in intros h; apply grows_get; exact G.
+
+Theorem vote_rule_io_pure : forall rs net f lock v p f' r,
+  vote_rule_io rs net f lock v p = (f', r) ->
+  r = vote_rule rs (f ++ net) lock v p /\ grows net f f'.
+Proof.
+  intros rs net f lock v p f' r H. destruct rs; unfold vote_rule_io, vote_rule in *.
+  - unfold chained_vote_io in H. unfold chained_vote, extends. rewrite app_length.
+    destruct (fetch net f (qc_hash (b_qc (p_block p)))) as [f1 r1] eqn:F1.
+    apply fetch_spec in F1. destruct F1 as [-> [G1 _]].
+    destruct (get (f ++ net) (qc_hash (b_qc (p_block p)))) as [qb |].
+    + destruct (lock_target_io net f1 qb) as [f2 r2] eqn:L.
+      apply lock_target_io_spec in L. destruct L as [-> G2].
+      rewrite (lock_target_ok_ext (f1 ++ net) (f ++ net)) in H by (ext_get G1).
+      assert (G12 : grows net f f2) by (eapply grows_trans; eauto).
+      destruct (lock_target_ok (f ++ net) qb); cbn [negb].
+      * destruct (N.ltb (b_view lock) (b_view qb)); [inversion H; subst; auto |].
+        apply extends_io_spec in H. destruct H as [-> G3]. split; [| eapply grows_trans; eauto].
+        apply extends_fuel_ext. ext_get G12.
+      * inversion H; subst. auto.
+    + apply extends_io_spec in H. destruct H as [-> G3]. split; [| eapply grows_trans; eauto].
+      apply extends_fuel_ext. ext_get G1.
+  - unfold fast_vote_io in H. unfold fast_vote, extends. rewrite app_length.
+    destruct (p_agg p) as [a |]; [| inversion H; subst; auto using grows_refl].
+    destruct (N.ltb (succ64 (agg_view a)) (b_view (p_block p))); [inversion H; subst; auto using grows_refl |].
+    destruct (fetch net f (qc_hash (b_qc (p_block p)))) as [f1 r1] eqn:F1.
+    apply fetch_spec in F1. destruct F1 as [-> [G1 _]].
+    destruct (get (f ++ net) (qc_hash (b_qc (p_block p)))) as [hb |]; [| inversion H; subst; auto].
+    apply extends_io_spec in H. destruct H as [-> G3]. split; [| eapply grows_trans; eauto].
+    apply extends_fuel_ext. ext_get G1.
+  - unfold simple_vote_io in H. unfold simple_vote.
+    destruct (N.ltb (b_view (p_block p)) v); [inversion H; subst; auto using grows_refl |].
+    destruct (fetch net f (qc_hash (b_qc (p_block p)))) as [f1 r1] eqn:F1.
+    apply fetch_spec in F1. destruct F1 as [-> [G1 _]].
+    destruct (get (f ++ net) (qc_hash (b_qc (p_block p)))) as [par |]; [| inversion H; subst; auto].
+    destruct (lock_target_io net f1 par) as [f2 r2] eqn:L.
+    apply lock_target_io_spec in L. destruct L as [-> G2].
+    rewrite (lock_target_ok_ext (f1 ++ net) (f ++ net)) in H by (ext_get G1).
+    assert (G12 : grows net f f2) by (eapply grows_trans; eauto).
+    destruct (lock_target_ok (f ++ net) par); cbn [negb]; cbv beta iota in H; inversion H; subst; auto.
+Qed.
+
+Ltac fin4 := split; [reflexivity | split; [assumption | split; [auto | try (intros; discriminate)]]].
+
+Theorem commit_rule_io_pure : forall rs net f lock blk f' lock' c,
+  commit_rule_io rs net f lock blk = (f', (lock', c)) ->
+  commit_rule rs (f ++ net) lock blk = (lock', c) /\ grows net f f' /\
+  (lock' = lock \/ In lock' f') /\ (forall b, c = Some b -> In b f').
+Proof.
+  intros rs net f lock blk f' lock' c H. destruct rs; unfold commit_rule_io, commit_rule in *.
+  - unfold chained_commit_io in H. unfold chained_commit.
+    destruct (qc_ref_io net f (b_qc blk)) as [f1 r1] eqn:Q1.
+    apply qc_ref_io_spec in Q1. destruct Q1 as [-> [G1 _]].
+    destruct (qc_ref (f ++ net) (b_qc blk)) as [b1 |];
+      [| inversion H; subst; fin4].
+    destruct (qc_ref_io net f1 (b_qc b1)) as [f2 r2] eqn:Q2.
+    apply qc_ref_io_spec in Q2. destruct Q2 as [-> [G2 I2]].
+    rewrite (qc_ref_ext (f1 ++ net) (f ++ net)) in * by (ext_get G1).
+    assert (G12 : grows net f f2) by (eapply grows_trans; eauto).
+    destruct (qc_ref (f ++ net) (b_qc b1)) as [b2 |];
+      [| inversion H; subst; fin4].
+    specialize (I2 b2 eq_refl).
+    destruct (qc_ref_io net f2 (b_qc b2)) as [f3 r3] eqn:Q3.
+    apply qc_ref_io_spec in Q3. destruct Q3 as [-> [G3 I3]].
+    rewrite (qc_ref_ext (f2 ++ net) (f ++ net)) in * by (ext_get G12).
+    assert (G13 : grows net f f3) by (eapply grows_trans; eauto).
+    assert (HL : (if N.ltb (b_view lock) (b_view b2) then b2 else lock) = lock \/
+                 In (if N.ltb (b_view lock) (b_view b2) then b2 else lock) f3).
+    { destruct (N.ltb (b_view lock) (b_view b2)); [right; exact (grows_in _ _ _ _ G3 I2) | left; reflexivity]. }
+    destruct (qc_ref (f ++ net) (b_qc b2)) as [b3 |];
+      [| inversion H; subst; fin4].
+    specialize (I3 b3 eq_refl).
+    match type of H with (if ?c then _ else _) = _ => destruct c end; inversion H; subst; fin4.
+    intros b E. inversion E; subst. exact I3.
+  - destruct (fast_commit_io net f blk) as [f1 c1] eqn:FC. inversion H; subst. clear H.
+    unfold fast_commit_io in FC. unfold fast_commit.
+    destruct (qc_ref_io net f (b_qc blk)) as [f1 r1] eqn:Q1.
+    apply qc_ref_io_spec in Q1. destruct Q1 as [-> [G1 _]].
+    destruct (qc_ref (f ++ net) (b_qc blk)) as [par |];
+      [| inversion FC; subst; fin4].
+    destruct (qc_ref_io net f1 (b_qc par)) as [f2 r2] eqn:Q2.
+    apply qc_ref_io_spec in Q2. destruct Q2 as [-> [G2 I2]].
+    rewrite (qc_ref_ext (f1 ++ net) (f ++ net)) in * by (ext_get G1).
+    assert (G12 : grows net f f2) by (eapply grows_trans; eauto).
+    destruct (qc_ref (f ++ net) (b_qc par)) as [gp |];
+      [| inversion FC; subst; fin4].
+    specialize (I2 gp eq_refl).
+    match type of FC with (if ?c then _ else _) = _ => destruct c end; inversion FC; subst; fin4.
+    intros b E. inversion E; subst. exact I2.
+  - unfold simple_commit_io in H. unfold simple_commit, simple_commit_gen.
+    destruct (fetch net f (qc_hash (b_qc blk))) as [f1 r1] eqn:Q1.
+    apply fetch_spec in Q1. destruct Q1 as [-> [G1 _]].
+    destruct (get (f ++ net) (qc_hash (b_qc blk))) as [p |];
+      [| inversion H; subst; fin4].
+    destruct (fetch net f1 (qc_hash (b_qc p))) as [f2 r2] eqn:Q2.
+    apply fetch_spec in Q2. destruct Q2 as [-> [G2 I2]].
+    rewrite (grows_get _ _ _ _ G1) in *.
+    assert (G12 : grows net f f2) by (eapply grows_trans; eauto).
+    destruct (get (f ++ net) (qc_hash (b_qc p))) as [gp |];
+      [| inversion H; subst; fin4].
+    specialize (I2 gp eq_refl).
+    destruct (fetch net f2 (qc_hash (b_qc gp))) as [f3 r3] eqn:Q3.
+    apply fetch_spec in Q3. destruct Q3 as [-> [G3 I3]].
+    rewrite (grows_get _ _ _ _ G12) in *.
+    assert (G13 : grows net f f3) by (eapply grows_trans; eauto).
+    assert (HL : (if N.ltb (b_view lock) (b_view gp) then gp else lock) = lock \/
+                 In (if N.ltb (b_view lock) (b_view gp) then gp else lock) f3).
+    { destruct (N.ltb (b_view lock) (b_view gp)); [right; exact (grows_in _ _ _ _ G3 I2) | left; reflexivity]. }
+    destruct (get (f ++ net) (qc_hash (b_qc gp))) as [ggp |];
+      [| inversion H; subst; fin4].
+    specialize (I3 ggp eq_refl). simpl negb. rewrite orb_false_l.
+    match type of H with (if ?c then _ else _) = _ => destruct c end; inversion H; subst; fin4.
+    intros b E. inversion E; subst. exact I3.
+Qed.
+
+(* ------------------------------------------------------------------ runs with fetching *)
+Definition nstate_ok (st : nstate) : Prop :=
+  let '(f, lock, _) := st in NoDup (map b_hash f) /\ In lock f.
+
+Lemma do_nstep_ok : forall rs st s st' o,
+  nstate_ok st -> do_nstep rs st s = (st', o) ->
+  nstate_ok st' /\ b_view (snd (fst st)) <= b_view (snd (fst st')).
+Proof.
+  intros rs [[f lock] net] s st' o [ND Hl] D. destruct s as [v p | b | b | net' |]; simpl in D.
+  - destruct (vote_rule_io rs net f lock v p) as [f' r] eqn:V. inversion D; subst.
+    apply vote_rule_io_pure in V. destruct V as [_ G]. simpl. split; [| lia].
+    split; [eapply grows_nodup; eauto | eapply grows_in; eauto].
+  - destruct (commit_rule_io rs net (store_block f b) lock b) as [f' [lock' c]] eqn:C.
+    inversion D; subst. apply commit_rule_io_pure in C. destruct C as [P [G [HL _]]].
+    destruct (store_block_ok f b ND) as [ND' Inc]. simpl. split.
+    + split; [eapply grows_nodup; eauto |].
+      destruct HL as [-> | HL]; [eapply grows_in; eauto | exact HL].
+    + eapply commit_rule_lock_view; eauto.
+  - inversion D; subst. destruct (store_block_ok f b ND) as [ND' Inc]. simpl. split; [auto | lia].
+  - inversion D; subst. simpl. split; [auto | lia].
+  - inversion D; subst. simpl. split; [auto | lia].
+Qed.
+
+Theorem nrun_ok : forall rs ss st st' os,
+  nstate_ok st -> nrun rs st ss = (st', os) ->
+  nstate_ok st' /\ b_view (snd (fst st)) <= b_view (snd (fst st')).
+Proof.
+  intros rs ss. induction ss as [| s r IH]; intros st st' os OK H; simpl in H.
+  - inversion H; subst. split; [exact OK | lia].
+  - destruct (do_nstep rs st s) as [st1 o] eqn:D.
+    destruct (nrun rs st1 r) as [st2 os2] eqn:R. inversion H; subst.
+    destruct (do_nstep_ok _ _ _ _ _ OK D) as [OK1 L1].
+    destruct (IH _ _ _ OK1 R) as [OK2 L2]. split; [exact OK2 | lia].
+Qed.
+
+Lemma init_nstate_ok : nstate_ok init_nstate.
+Proof. simpl. split; [repeat constructor; simpl; tauto | auto]. Qed.
+
+(* with an empty network the threaded run is the pure run *)
+Theorem reachable_nstate_ok : forall rs ss st' os,
+  nrun rs init_nstate ss = (st', os) ->
+  NoDup (map b_hash (fst (fst st'))) /\ In (snd (fst st')) (fst (fst st')).
+Proof.
+  intros rs ss [[f lock] net] os H.
+  destruct (nrun_ok rs ss init_nstate _ os init_nstate_ok H) as [OK _]. exact OK.
+Qed.
 
 (* ------------------------------------------------------------------ the defect, as a theorem *)
 (* Without the patch the simple ruleset commits a block that is not the tail of a direct,
